@@ -80,7 +80,11 @@ func (k *kssState) run(builders gabi.ProofBuilderList, ctx, nonce *big.Int, issi
 	if err != nil {
 		return nil, err
 	}
-	t.respReq.Context = ctx
+	if ctx.Cmp(bigOne) != 0 {
+		t.respReq.Context = ctx
+	} else {
+		t.respReq.Context = nil // wire form of the default context (the field is omitted)
+	}
 	t.proofP, err = gabi.KeyshareResponse(k.secret, t.kssRandomizer, t.commReq, t.respReq, k.keys)
 	if err != nil {
 		return nil, err
